@@ -384,6 +384,11 @@ def get_apy(amounts, rate_dict):
     return AaveV3CoreLib.safe_div_zero(weighted, total)
 '''
 
+REF_SAFE_ROUNDING = '''
+def safe_rounding(a, rounding):
+    return a if a == Decimal("inf") or a == Decimal("nan") else a.quantize(rounding)
+'''
+
 REF_SAFE_DIV = '''
 def safe_div_zero(a, b):
     if b != 0:
